@@ -1473,7 +1473,7 @@ def _quant_over(model, ex, gen, st, combine):
         raise Unsupported(f"{combine}() over {gen!r}")
     _, node, env = gen.py
     if len(node.generators) != 1:
-        raise Unsupported("nested generators")
+        return _quant_nested(model, ex, node, env, st, combine)
     comp = node.generators[0]
     s2 = st.fork()
     s2.env = dict(env)
@@ -1504,6 +1504,42 @@ def _quant_over(model, ex, gen, st, combine):
     if combine == "any":
         return V(z3.Exists([j], z3.And([rng] + conds + [body])), BOOL)
     return V(z3.ForAll([j], z3.Implies(z3.And([rng] + conds), body)), BOOL)
+
+
+def _quant_nested(model, ex, node, env, st, combine):
+    """any()/all() over `elt for x in xs [if c] for y in ys(x) [if d] ...` with symbolic iterables: one bound index per generator."""
+    from .smt import FRESH_LOG, lift_fresh
+    mark = len(FRESH_LOG)
+    s2 = st.fork()
+    s2.env = dict(env)
+    n0 = len(s2.pc)
+    js, guards = [], []
+    for comp in node.generators:
+        el = iter_elements(model, ex, ex.ev(comp.iter, s2), s2)
+        if el[0] != "symbolic":
+            raise Unsupported("nested generators over a concrete iterable")
+        _, n, at = el
+        j = fresh("qj", z3.IntSort())
+        js.append(j)
+        guards.append(z3.And(0 <= j, j < n))
+        item = at(j)
+        ex.assign(comp.target, item, s2)
+        if item.ty is not TUPLE:
+            model.type_facts(ex, item, s2)
+        for c in comp.ifs:
+            guards.append(ex.ev_truth(c, s2))
+    body = ex.ev_truth(node.elt, s2)
+    raw = list(s2.pc[n0:])
+    lifted = lift_fresh(mark, js, raw + guards + [body])
+    facts, lguards, lbody = lifted[:len(raw)], lifted[len(raw):-1], lifted[-1]
+    rng = z3.And([g for g in lguards])
+    for f in facts:
+        st.assume(z3.ForAll(js, z3.Implies(z3.And([g for g in lguards if g.decl().kind() == z3.Z3_OP_AND and g.num_args() == 2] or [z3.BoolVal(True)]), f))
+                  if any(_mentions(f, j) for j in js) else f)
+    st.facts |= s2.facts
+    if combine == "any":
+        return V(z3.Exists(js, z3.And(rng, lbody)), BOOL)
+    return V(z3.ForAll(js, z3.Implies(rng, lbody)), BOOL)
 
 
 def iter_elements(model, ex, it, st):
